@@ -26,6 +26,9 @@ type Case struct {
 	// PushDst (push): per ref, the index of the ref whose name is the destination of the refspec
 	// (-1 or absent: same name) - e.g. a branch pushed onto an existing remote tag
 	PushDst []int `json:"push_dst,omitempty"`
+	// Mirror (fetch): per ref, a second, never '+'-forced refspec for the same remote ref onto
+	// refs/mirror/<n>, listed right after the first one
+	Mirror []bool `json:"mirror,omitempty"`
 }
 
 var sub = evid.Register("refmove", run)
@@ -34,7 +37,7 @@ func TestPropRefMoves(t *testing.T) {
 	rapid.Check(t, func(t *rapid.T) {
 		c := Case{
 			T:     syncx.GenTopology(t, evid.Scale(4, 6)),
-			Op:    rapid.SampledFrom([]string{"fetch", "fetch", "push", "push", "merge", "merge", "pull"}).Draw(t, "op"),
+			Op:    rapid.SampledFrom([]string{"fetch", "fetch", "push", "push", "merge", "merge", "pull", "pull-new"}).Draw(t, "op"),
 			Force: rapid.IntRange(0, 4).Draw(t, "force") == 0,
 			FF:    rapid.SampledFrom([]string{"", "--ff", "--no-ff", "--ff-only"}).Draw(t, "ff"),
 		}
@@ -45,6 +48,7 @@ func TestPropRefMoves(t *testing.T) {
 				d = rapid.IntRange(0, len(c.T.Refs)-1).Draw(t, "dst")
 			}
 			c.PushDst = append(c.PushDst, d)
+			c.Mirror = append(c.Mirror, rapid.IntRange(0, 3).Draw(t, "mirror") == 0)
 		}
 		sub.Check(t, c)
 	})
@@ -112,9 +116,15 @@ func run(c Case) (o evid.Outcome, err error) {
 		if err != nil {
 			return o, fmt.Errorf("HARNESS: %v", err)
 		}
-		for _, r := range c.T.Refs {
+		for i, r := range c.T.Refs {
 			if strings.HasPrefix(r.Name, "heads/") && r.L >= 0 {
 				if err := ref.SaveRef(lrs, "remotes/origin/"+r.Name[6:], w.Sums[r.L], "l", "l@x", "fetch", "seed", nil); err != nil {
+					closeL()
+					return o, fmt.Errorf("HARNESS: %v", err)
+				}
+			}
+			if i < len(c.Mirror) && c.Mirror[i] && r.L >= 0 && r.R >= 0 {
+				if err := ref.SaveRef(lrs, fmt.Sprintf("mirror/m%d", i), w.Sums[r.L], "l", "l@x", "fetch", "seed", nil); err != nil {
 					closeL()
 					return o, fmt.Errorf("HARNESS: %v", err)
 				}
@@ -143,6 +153,13 @@ func run(c Case) (o evid.Outcome, err error) {
 			args = append(args, spec)
 			covered[r.Name] = true
 			exps = append(exps, expect{dst: dst, old: before.Refs[dst], new: w.Sums[r.R], forced: c.Force || c.RefForce[i], src: r.Name})
+			if i < len(c.Mirror) && c.Mirror[i] && r.L >= 0 {
+				// the same remote ref once more, onto another name, without '+'
+				mdst := fmt.Sprintf("mirror/m%d", i)
+				args = append(args, fmt.Sprintf("refs/%s:refs/%s", r.Name, mdst))
+				exps = append(exps, expect{dst: mdst, old: before.Refs[mdst], new: w.Sums[r.R], forced: c.Force, src: r.Name})
+				o.Class("two-refspecs-for-one-remote-ref")
+			}
 		}
 		if len(exps) == 0 {
 			o.Class("nothing-to-do")
@@ -332,6 +349,79 @@ func run(c Case) (o evid.Outcome, err error) {
 		if cross > 0 {
 			o.Class("push-onto-another-name")
 		}
+	case "pull-new":
+		// pull into a branch that does not exist locally yet, through a refspec without '+', while
+		// a remote-tracking ref left by an earlier fetch points somewhere else
+		var br string
+		ri, xi := -1, -1
+		for _, r := range c.T.Refs {
+			if strings.HasPrefix(r.Name, "heads/") && r.L < 0 && r.R >= 0 && br == "" {
+				br, ri = r.Name[6:], r.R
+			}
+		}
+		for j := len(c.T.Nodes) - 1; j >= 0; j-- {
+			if c.T.Nodes[j].Owner != syncx.Remote {
+				xi = j // the newest commit the local side has
+				break
+			}
+		}
+		for _, r := range c.T.Refs {
+			// wrgl resolves NAME to any ref ending in /NAME when no branch is called NAME: then the
+			// branch "does exist" for pull
+			if r.L >= 0 && strings.HasSuffix(r.Name, "/"+br) && r.Name != "heads/"+br {
+				br = ""
+			}
+		}
+		if br == "" || xi < 0 {
+			o.Class("nothing-to-do")
+			return o, nil
+		}
+		_, lrs, closeL, err := w.Repo.Open()
+		if err != nil {
+			return o, fmt.Errorf("HARNESS: %v", err)
+		}
+		track := "remotes/origin/" + br
+		if err := ref.SaveRef(lrs, track, w.Sums[xi], "l", "l@x", "fetch", "seed", nil); err != nil {
+			closeL()
+			return o, fmt.Errorf("HARNESS: %v", err)
+		}
+		closeL()
+		before, err := w.LocalRefs()
+		if err != nil {
+			return o, fmt.Errorf("HARNESS: %v", err)
+		}
+		args := []string{"pull", br, "origin", fmt.Sprintf("refs/heads/%s:refs/%s", br, track), "-n", "1"}
+		out, cerr := w.Repo.Run(args...)
+		after, err := w.LocalRefs()
+		if err != nil {
+			return o, fmt.Errorf("local repository unreadable after %v: %v", args, err)
+		}
+		candidates++
+		desc := fmt.Sprintf("`wrgl %s` (%s was c%d, remote branch at c%d)", strings.Join(args, " "), track, xi, ri)
+		if xi != ri && !w.G.IsAnc(xi, ri) {
+			nonFF++
+			if !bytes.Equal(after.Refs[track], w.Sums[xi]) {
+				return o, fmt.Errorf("%s: not a fast-forward and not forced, yet %s moved to c%d\noutput: %s", desc, track, w.NodeOf(after.Refs[track]), out)
+			}
+			if !strings.Contains(out, "[rejected]") {
+				return o, fmt.Errorf("%s: the update was refused but not reported: %s", desc, out)
+			}
+			if len(after.Logs[track]) != len(before.Logs[track]) {
+				return o, fmt.Errorf("%s: rejected update still wrote a log entry", desc)
+			}
+		} else if cerr == nil {
+			if !bytes.Equal(after.Refs[track], w.Sums[ri]) {
+				return o, fmt.Errorf("%s: fast-forward of %s expected, it is at c%d", desc, track, w.NodeOf(after.Refs[track]))
+			}
+		}
+		for name, v := range before.Refs {
+			if name != track && name != "heads/"+br && !bytes.Equal(after.Refs[name], v) && !isTag(name) {
+				return o, fmt.Errorf("%s changed %q which the command does not name", desc, name)
+			}
+		}
+		o.NonTrivial = nonFF >= 1
+		o.Class("pull-into-new-branch")
+		return o, nil
 	case "merge", "pull":
 		// pick two local branches
 		var main, other string
